@@ -67,7 +67,7 @@ VARIABLES
   mpc, mcur,        \* multiplexer read loop: pc and the envelope in hand
   cReadFailed,      \* the client's transport read fails from now on
   \* ---- unary callers ---------------------------------------------------------
-  upc, ures,        \* pc and result ("" | "ok" | "err")
+  upc, ures, ucan,  \* pc, result ("" | "ok" | "err"), caller's context cancelled
   \* ---- streaming calls: user goroutine ----------------------------------------
   spc, sop,         \* pc and current operation
   nsent, closed, cancelled, sres, \* messages sent, half-closed, caller cancelled, sequence of Recv results
@@ -92,7 +92,7 @@ VARIABLES
   advN              \* envelopes injected by the adversarial peer so far
 
 vars == <<c2s, s2c, nextId, idOf, muxLock, reg, respCh, respDone, rErr, mpc, mcur, cReadFailed,
-          upc, ures, spc, sop, nsent, closed, cancelled, sres, rpc, rcur, sctx, rdone, rterm, rChClosed, prot,
+          upc, ures, ucan, spc, sop, nsent, closed, cancelled, sres, rpc, rcur, sctx, rdone, rterm, rChClosed, prot,
           gotTrailer, srpc, srcur, srvLock, sreg, sch, hctx, hdoneSig, connCtx, wpc, wcur, wrpc, wrcur,
           hpc, hrecv, hsentN, hres, hsawEOF, waitFor, sReadFailed, stopped, serveRet, advN>>
 
@@ -109,7 +109,7 @@ Init ==
   /\ nextId = 1 /\ idOf = [c \in Calls |-> NoId]
   /\ muxLock = Free /\ reg = {} /\ respCh = [i \in Ids |-> <<>>] /\ respDone = {} /\ rErr = FALSE
   /\ mpc = "read" /\ mcur = Env(0, "") /\ cReadFailed = FALSE
-  /\ upc = [c \in Unaries |-> "check"] /\ ures = [c \in Unaries |-> ""]
+  /\ upc = [c \in Unaries |-> "check"] /\ ures = [c \in Unaries |-> ""] /\ ucan = [c \in Unaries |-> FALSE]
   /\ spc = [c \in Streams |-> "check"] /\ sop = [c \in Streams |-> ""]
   /\ nsent = [c \in Streams |-> 0] /\ closed = [c \in Streams |-> FALSE] /\ cancelled = [c \in Streams |-> FALSE]
   /\ sres = [c \in Streams |-> <<>>]
@@ -138,7 +138,7 @@ UCheck(c) ==
   /\ upc[c] = "check" /\ muxLock = Free
   /\ IF rErr THEN upc' = [upc EXCEPT ![c] = "done"] /\ ures' = [ures EXCEPT ![c] = "err"]
             ELSE upc' = [upc EXCEPT ![c] = "reg"] /\ UNCHANGED ures
-  /\ UNCHANGED <<c2s, s2c, nextId, idOf, muxLock, reg, respCh, respDone, rErr, mpc, mcur, cReadFailed,
+  /\ UNCHANGED <<c2s, s2c, nextId, idOf, muxLock, reg, respCh, respDone, rErr, mpc, mcur, cReadFailed, ucan,
                  spc, sop, nsent, closed, cancelled, sres, rpc, rcur, sctx, rdone, rterm, rChClosed, prot,
                  gotTrailer, srpc, srcur, srvLock, sreg, sch, hctx, hdoneSig, connCtx, wpc, wcur, wrpc, wrcur,
                  hpc, hrecv, hsentN, hres, hsawEOF, waitFor, sReadFailed, stopped, serveRet, advN>>
@@ -152,21 +152,25 @@ URegister(c) ==
        ELSE /\ idOf' = [idOf EXCEPT ![c] = nextId] /\ nextId' = nextId + 1
             /\ reg' = reg \cup {nextId}
             /\ upc' = [upc EXCEPT ![c] = "write"] /\ UNCHANGED ures
-  /\ UNCHANGED <<c2s, s2c, muxLock, respCh, respDone, rErr, mpc, mcur, cReadFailed,
+  /\ UNCHANGED <<c2s, s2c, muxLock, respCh, respDone, rErr, mpc, mcur, cReadFailed, ucan,
                  spc, sop, nsent, closed, cancelled, sres, rpc, rcur, sctx, rdone, rterm, rChClosed, prot,
                  gotTrailer, srpc, srcur, srvLock, sreg, sch, hctx, hdoneSig, connCtx, wpc, wcur, wrpc, wrcur,
                  hpc, hrecv, hsentN, hres, hsawEOF, waitFor, sReadFailed, stopped, serveRet, advN>>
 
+\* rm.rw.Write(ctx, request): blocks while the transport has no room; gives up with the caller's context
 UWrite(c) ==
-  /\ upc[c] = "write" /\ Room(c2s)
-  /\ c2s' = Append(c2s, Env(idOf[c], "req"))
-  /\ upc' = [upc EXCEPT ![c] = "await"]
-  /\ UNCHANGED <<s2c, nextId, idOf, muxLock, reg, respCh, respDone, rErr, mpc, mcur, cReadFailed, ures,
+  /\ upc[c] = "write"
+  /\ IF ucan[c]
+       THEN /\ ures' = [ures EXCEPT ![c] = "err"] /\ upc' = [upc EXCEPT ![c] = "unreg"] /\ UNCHANGED c2s
+       ELSE /\ Room(c2s)
+            /\ c2s' = Append(c2s, Env(idOf[c], "req"))
+            /\ upc' = [upc EXCEPT ![c] = "await"] /\ UNCHANGED ures
+  /\ UNCHANGED <<s2c, nextId, idOf, muxLock, reg, respCh, respDone, rErr, mpc, mcur, cReadFailed, ucan,
                  spc, sop, nsent, closed, cancelled, sres, rpc, rcur, sctx, rdone, rterm, rChClosed, prot,
                  gotTrailer, srpc, srcur, srvLock, sreg, sch, hctx, hdoneSig, connCtx, wpc, wcur, wrpc, wrcur,
                  hpc, hrecv, hsentN, hres, hsawEOF, waitFor, sReadFailed, stopped, serveRet, advN>>
 
-\* select { response; done closed }
+\* select { response; done closed; ctx.Done }
 UAwait(c) ==
   /\ upc[c] = "await"
   /\ LET id == idOf[c] IN
@@ -175,8 +179,10 @@ UAwait(c) ==
         /\ respCh' = [respCh EXCEPT ![id] = Tail(@)]
      \/ /\ id \in respDone
         /\ ures' = [ures EXCEPT ![c] = "err"] /\ UNCHANGED respCh
+     \/ /\ ucan[c]                                  \* case <-ctx.Done()
+        /\ ures' = [ures EXCEPT ![c] = "err"] /\ UNCHANGED respCh
   /\ upc' = [upc EXCEPT ![c] = "unreg"]
-  /\ UNCHANGED <<c2s, s2c, nextId, idOf, muxLock, reg, respDone, rErr, mpc, mcur, cReadFailed,
+  /\ UNCHANGED <<c2s, s2c, nextId, idOf, muxLock, reg, respDone, rErr, mpc, mcur, cReadFailed, ucan,
                  spc, sop, nsent, closed, cancelled, sres, rpc, rcur, sctx, rdone, rterm, rChClosed, prot,
                  gotTrailer, srpc, srcur, srvLock, sreg, sch, hctx, hdoneSig, connCtx, wpc, wcur, wrpc, wrcur,
                  hpc, hrecv, hsentN, hres, hsawEOF, waitFor, sReadFailed, stopped, serveRet, advN>>
@@ -186,7 +192,7 @@ UUnregister(c) ==
   /\ reg' = reg \ {idOf[c]}
   /\ respDone' = IF idOf[c] \in reg THEN respDone \cup {idOf[c]} ELSE respDone
   /\ upc' = [upc EXCEPT ![c] = "done"]
-  /\ UNCHANGED <<c2s, s2c, nextId, idOf, muxLock, respCh, rErr, mpc, mcur, cReadFailed, ures,
+  /\ UNCHANGED <<c2s, s2c, nextId, idOf, muxLock, respCh, rErr, mpc, mcur, cReadFailed, ures, ucan,
                  spc, sop, nsent, closed, cancelled, sres, rpc, rcur, sctx, rdone, rterm, rChClosed, prot,
                  gotTrailer, srpc, srcur, srvLock, sreg, sch, hctx, hdoneSig, connCtx, wpc, wcur, wrpc, wrcur,
                  hpc, hrecv, hsentN, hres, hsawEOF, waitFor, sReadFailed, stopped, serveRet, advN>>
@@ -197,9 +203,9 @@ UUnregister(c) ==
 MuxRead ==
   /\ mpc = "read"
   /\ IF cReadFailed
-       THEN mpc' = "fail" /\ UNCHANGED <<s2c, mcur, advN>>
+       THEN mpc' = "fail" /\ UNCHANGED <<s2c, mcur, ucan, advN>>
        ELSE s2c # <<>> /\ mcur' = Head(s2c) /\ s2c' = Tail(s2c) /\ mpc' = "lookup"
-  /\ UNCHANGED <<c2s, nextId, idOf, muxLock, reg, respCh, respDone, rErr, cReadFailed, upc, ures,
+  /\ UNCHANGED <<c2s, nextId, idOf, muxLock, reg, respCh, respDone, rErr, cReadFailed, upc, ures, ucan,
                  spc, sop, nsent, closed, cancelled, sres, rpc, rcur, sctx, rdone, rterm, rChClosed, prot,
                  gotTrailer, srpc, srcur, srvLock, sreg, sch, hctx, hdoneSig, connCtx, wpc, wcur, wrpc, wrcur,
                  hpc, hrecv, hsentN, hres, hsawEOF, waitFor, sReadFailed, stopped, serveRet, advN>>
@@ -211,7 +217,7 @@ MuxLookup ==
        THEN IF Fixed("D7c") THEN mpc' = "handoff" /\ UNCHANGED muxLock
                             ELSE mpc' = "handoff" /\ muxLock' = "mux"
        ELSE mpc' = "read" /\ UNCHANGED muxLock      \* unknown id: logged and dropped
-  /\ UNCHANGED <<c2s, s2c, nextId, idOf, reg, respCh, respDone, rErr, mcur, cReadFailed, upc, ures,
+  /\ UNCHANGED <<c2s, s2c, nextId, idOf, reg, respCh, respDone, rErr, mcur, cReadFailed, upc, ures, ucan,
                  spc, sop, nsent, closed, cancelled, sres, rpc, rcur, sctx, rdone, rterm, rChClosed, prot,
                  gotTrailer, srpc, srcur, srvLock, sreg, sch, hctx, hdoneSig, connCtx, wpc, wcur, wrpc, wrcur,
                  hpc, hrecv, hsentN, hres, hsawEOF, waitFor, sReadFailed, stopped, serveRet, advN>>
@@ -225,7 +231,7 @@ MuxHandoff ==
         /\ UNCHANGED respCh
   /\ muxLock' = IF muxLock = "mux" THEN Free ELSE muxLock
   /\ mpc' = "read"
-  /\ UNCHANGED <<c2s, s2c, nextId, idOf, reg, respDone, rErr, mcur, cReadFailed, upc, ures,
+  /\ UNCHANGED <<c2s, s2c, nextId, idOf, reg, respDone, rErr, mcur, cReadFailed, upc, ures, ucan,
                  spc, sop, nsent, closed, cancelled, sres, rpc, rcur, sctx, rdone, rterm, rChClosed, prot,
                  gotTrailer, srpc, srcur, srvLock, sreg, sch, hctx, hdoneSig, connCtx, wpc, wcur, wrpc, wrcur,
                  hpc, hrecv, hsentN, hres, hsawEOF, waitFor, sReadFailed, stopped, serveRet, advN>>
@@ -235,7 +241,7 @@ MuxFail ==
   /\ mpc = "fail" /\ muxLock = Free
   /\ rErr' = TRUE /\ respDone' = respDone \cup reg /\ reg' = {}
   /\ mpc' = "end"
-  /\ UNCHANGED <<c2s, s2c, nextId, idOf, muxLock, respCh, mcur, cReadFailed, upc, ures,
+  /\ UNCHANGED <<c2s, s2c, nextId, idOf, muxLock, respCh, mcur, cReadFailed, upc, ures, ucan,
                  spc, sop, nsent, closed, cancelled, sres, rpc, rcur, sctx, rdone, rterm, rChClosed, prot,
                  gotTrailer, srpc, srcur, srvLock, sreg, sch, hctx, hdoneSig, connCtx, wpc, wcur, wrpc, wrcur,
                  hpc, hrecv, hsentN, hres, hsawEOF, waitFor, sReadFailed, stopped, serveRet, advN>>
@@ -247,7 +253,7 @@ MuxFail ==
 SCheck(c) ==
   /\ spc[c] = "check" /\ muxLock = Free
   /\ spc' = [spc EXCEPT ![c] = IF rErr THEN "done" ELSE "reg"]
-  /\ UNCHANGED <<c2s, s2c, nextId, idOf, muxLock, reg, respCh, respDone, rErr, mpc, mcur, cReadFailed, upc, ures,
+  /\ UNCHANGED <<c2s, s2c, nextId, idOf, muxLock, reg, respCh, respDone, rErr, mpc, mcur, cReadFailed, upc, ures, ucan,
                  sop, nsent, closed, cancelled, sres, rpc, rcur, sctx, rdone, rterm, rChClosed, prot,
                  gotTrailer, srpc, srcur, srvLock, sreg, sch, hctx, hdoneSig, connCtx, wpc, wcur, wrpc, wrcur,
                  hpc, hrecv, hsentN, hres, hsawEOF, waitFor, sReadFailed, stopped, serveRet, advN>>
@@ -259,7 +265,7 @@ SRegister(c) ==
        ELSE /\ idOf' = [idOf EXCEPT ![c] = nextId] /\ nextId' = nextId + 1
             /\ reg' = reg \cup {nextId}
             /\ spc' = [spc EXCEPT ![c] = "open"]
-  /\ UNCHANGED <<c2s, s2c, muxLock, respCh, respDone, rErr, mpc, mcur, cReadFailed, upc, ures,
+  /\ UNCHANGED <<c2s, s2c, muxLock, respCh, respDone, rErr, mpc, mcur, cReadFailed, upc, ures, ucan,
                  sop, nsent, closed, cancelled, sres, rpc, rcur, sctx, rdone, rterm, rChClosed, prot,
                  gotTrailer, srpc, srcur, srvLock, sreg, sch, hctx, hdoneSig, connCtx, wpc, wcur, wrpc, wrcur,
                  hpc, hrecv, hsentN, hres, hsawEOF, waitFor, sReadFailed, stopped, serveRet, advN>>
@@ -269,7 +275,7 @@ SOpen(c) ==
   /\ spc[c] = "open" /\ Room(c2s)
   /\ c2s' = Append(c2s, Env(idOf[c], "open"))
   /\ spc' = [spc EXCEPT ![c] = "run"] /\ rpc' = [rpc EXCEPT ![c] = "read"]
-  /\ UNCHANGED <<s2c, nextId, idOf, muxLock, reg, respCh, respDone, rErr, mpc, mcur, cReadFailed, upc, ures,
+  /\ UNCHANGED <<s2c, nextId, idOf, muxLock, reg, respCh, respDone, rErr, mpc, mcur, cReadFailed, upc, ures, ucan,
                  sop, nsent, closed, cancelled, sres, rcur, sctx, rdone, rterm, rChClosed, prot,
                  gotTrailer, srpc, srcur, srvLock, sreg, sch, hctx, hdoneSig, connCtx, wpc, wcur, wrpc, wrcur,
                  hpc, hrecv, hsentN, hres, hsawEOF, waitFor, sReadFailed, stopped, serveRet, advN>>
@@ -286,7 +292,7 @@ SChoose(c) ==
      \* (cancel); otherwise caller and handler could wait for each other by their own design
      \/ ~Terminal(c) /\ (closed[c] \/ EnvCancel) /\ sop' = [sop EXCEPT ![c] = "recv"] /\ spc' = [spc EXCEPT ![c] = "opcheck"]
      \/ Terminal(c) /\ sop' = [sop EXCEPT ![c] = ""] /\ spc' = [spc EXCEPT ![c] = "done"]
-  /\ UNCHANGED <<c2s, s2c, nextId, idOf, muxLock, reg, respCh, respDone, rErr, mpc, mcur, cReadFailed, upc, ures,
+  /\ UNCHANGED <<c2s, s2c, nextId, idOf, muxLock, reg, respCh, respDone, rErr, mpc, mcur, cReadFailed, upc, ures, ucan,
                  nsent, closed, cancelled, sres, rpc, rcur, sctx, rdone, rterm, rChClosed, prot,
                  gotTrailer, srpc, srcur, srvLock, sreg, sch, hctx, hdoneSig, connCtx, wpc, wcur, wrpc, wrcur,
                  hpc, hrecv, hsentN, hres, hsawEOF, waitFor, sReadFailed, stopped, serveRet, advN>>
@@ -300,7 +306,7 @@ SOpCheck(c) ==
             /\ spc' = [spc EXCEPT ![c] = "run"]
        ELSE /\ spc' = [spc EXCEPT ![c] = IF sop[c] = "recv" THEN "recvsel" ELSE IF sop[c] = "sendx" THEN "sendxw" ELSE "sendw"]
             /\ UNCHANGED <<sres, nsent, advN>>
-  /\ UNCHANGED <<c2s, s2c, nextId, idOf, muxLock, reg, respCh, respDone, rErr, mpc, mcur, cReadFailed, upc, ures,
+  /\ UNCHANGED <<c2s, s2c, nextId, idOf, muxLock, reg, respCh, respDone, rErr, mpc, mcur, cReadFailed, upc, ures, ucan,
                  sop, closed, cancelled, rpc, rcur, sctx, rdone, rterm, rChClosed, prot,
                  gotTrailer, srpc, srcur, srvLock, sreg, sch, hctx, hdoneSig, connCtx, wpc, wcur, wrpc, wrcur,
                  hpc, hrecv, hsentN, hres, hsawEOF, waitFor, sReadFailed, stopped, serveRet, advN>>
@@ -315,7 +321,7 @@ SSendWrite(c) ==
        ELSE /\ Room(c2s)
             /\ c2s' = Append(c2s, Env(idOf[c], "body")) /\ nsent' = [nsent EXCEPT ![c] = @ + 1]
             /\ spc' = [spc EXCEPT ![c] = "run"]
-  /\ UNCHANGED <<s2c, nextId, idOf, muxLock, reg, respCh, respDone, rErr, mpc, mcur, cReadFailed, upc, ures,
+  /\ UNCHANGED <<s2c, nextId, idOf, muxLock, reg, respCh, respDone, rErr, mpc, mcur, cReadFailed, upc, ures, ucan,
                  sop, closed, cancelled, sres, rpc, rcur, sctx, rdone, rterm, rChClosed, prot,
                  gotTrailer, srpc, srcur, srvLock, sreg, sch, hctx, hdoneSig, connCtx, wpc, wcur, wrpc, wrcur,
                  hpc, hrecv, hsentN, hres, hsawEOF, waitFor, sReadFailed, stopped, serveRet, advN>>
@@ -327,7 +333,7 @@ SSendRefused(c) ==
   /\ spc[c] = "sendxw"
   /\ nsent' = [nsent EXCEPT ![c] = MaxC + 1]     \* MaxC + 1 marks "a Send of this stream was refused" 
   /\ spc' = [spc EXCEPT ![c] = "td1"]
-  /\ UNCHANGED <<c2s, s2c, nextId, idOf, muxLock, reg, respCh, respDone, rErr, mpc, mcur, cReadFailed, upc, ures,
+  /\ UNCHANGED <<c2s, s2c, nextId, idOf, muxLock, reg, respCh, respDone, rErr, mpc, mcur, cReadFailed, upc, ures, ucan,
                  sop, closed, cancelled, sres, rpc, rcur, sctx, rdone, rterm, rChClosed, prot, gotTrailer, srpc,
                  srcur, srvLock, sreg, sch, hctx, hdoneSig, connCtx, wpc, wcur, wrpc, wrcur, hpc, hrecv, hsentN,
                  hres, hsawEOF, waitFor, sReadFailed, stopped, serveRet, advN>>
@@ -343,7 +349,7 @@ STeardown1(c) ==
   /\ spc[c] = "td1"
   /\ IF Fixed("D22") THEN TdCancel(c) ELSE TdUnregister(c)
   /\ spc' = [spc EXCEPT ![c] = "td2"]
-  /\ UNCHANGED <<c2s, s2c, nextId, idOf, muxLock, respCh, rErr, mpc, mcur, cReadFailed, upc, ures, sop, nsent,
+  /\ UNCHANGED <<c2s, s2c, nextId, idOf, muxLock, respCh, rErr, mpc, mcur, cReadFailed, upc, ures, ucan, sop, nsent,
                  closed, cancelled, sres, rpc, rcur, rdone, rterm, rChClosed, prot, gotTrailer, srpc, srcur,
                  srvLock, sreg, sch, hctx, hdoneSig, connCtx, wpc, wcur, wrpc, wrcur, hpc, hrecv, hsentN, hres,
                  hsawEOF, waitFor, sReadFailed, stopped, serveRet, advN>>
@@ -352,7 +358,7 @@ STeardown2(c) ==
   /\ spc[c] = "td2"
   /\ IF Fixed("D22") THEN TdUnregister(c) ELSE TdCancel(c)
   /\ spc' = [spc EXCEPT ![c] = "run"]
-  /\ UNCHANGED <<c2s, s2c, nextId, idOf, muxLock, respCh, rErr, mpc, mcur, cReadFailed, upc, ures, sop, nsent,
+  /\ UNCHANGED <<c2s, s2c, nextId, idOf, muxLock, respCh, rErr, mpc, mcur, cReadFailed, upc, ures, ucan, sop, nsent,
                  closed, cancelled, sres, rpc, rcur, rdone, rterm, rChClosed, prot, gotTrailer, srpc, srcur,
                  srvLock, sreg, sch, hctx, hdoneSig, connCtx, wpc, wcur, wrpc, wrcur, hpc, hrecv, hsentN, hres,
                  hsawEOF, waitFor, sReadFailed, stopped, serveRet, advN>>
@@ -362,7 +368,7 @@ SCloseWrite(c) ==
   /\ c2s' = IF sctx[c] THEN c2s ELSE Append(c2s, Env(idOf[c], "close"))
   /\ closed' = [closed EXCEPT ![c] = TRUE]
   /\ spc' = [spc EXCEPT ![c] = "run"]
-  /\ UNCHANGED <<s2c, nextId, idOf, muxLock, reg, respCh, respDone, rErr, mpc, mcur, cReadFailed, upc, ures,
+  /\ UNCHANGED <<s2c, nextId, idOf, muxLock, reg, respCh, respDone, rErr, mpc, mcur, cReadFailed, upc, ures, ucan,
                  sop, nsent, cancelled, sres, rpc, rcur, sctx, rdone, rterm, rChClosed, prot,
                  gotTrailer, srpc, srcur, srvLock, sreg, sch, hctx, hdoneSig, connCtx, wpc, wcur, wrpc, wrcur,
                  hpc, hrecv, hsentN, hres, hsawEOF, waitFor, sReadFailed, stopped, serveRet, advN>>
@@ -376,7 +382,7 @@ SRecvCtx(c) ==
             /\ sres' = [sres EXCEPT ![c] = Append(@, IF rdone[c] THEN rterm[c] ELSE "canceled")]
        ELSE sres' = [sres EXCEPT ![c] = Append(@, "canceled")]
   /\ spc' = [spc EXCEPT ![c] = "run"]
-  /\ UNCHANGED <<c2s, s2c, nextId, idOf, muxLock, reg, respCh, respDone, rErr, mpc, mcur, cReadFailed, upc, ures,
+  /\ UNCHANGED <<c2s, s2c, nextId, idOf, muxLock, reg, respCh, respDone, rErr, mpc, mcur, cReadFailed, upc, ures, ucan,
                  sop, nsent, closed, cancelled, rpc, rcur, sctx, rdone, rterm, rChClosed, prot,
                  gotTrailer, srpc, srcur, srvLock, sreg, sch, hctx, hdoneSig, connCtx, wpc, wcur, wrpc, wrcur,
                  hpc, hrecv, hsentN, hres, hsawEOF, waitFor, sReadFailed, stopped, serveRet, advN>>
@@ -386,7 +392,7 @@ SRecvClosed(c) ==
   /\ spc[c] = "recvsel" /\ rChClosed[c] /\ prot[c] = Free
   /\ sres' = [sres EXCEPT ![c] = Append(@, rterm[c])]
   /\ spc' = [spc EXCEPT ![c] = "run"]
-  /\ UNCHANGED <<c2s, s2c, nextId, idOf, muxLock, reg, respCh, respDone, rErr, mpc, mcur, cReadFailed, upc, ures,
+  /\ UNCHANGED <<c2s, s2c, nextId, idOf, muxLock, reg, respCh, respDone, rErr, mpc, mcur, cReadFailed, upc, ures, ucan,
                  sop, nsent, closed, cancelled, rpc, rcur, sctx, rdone, rterm, rChClosed, prot,
                  gotTrailer, srpc, srcur, srvLock, sreg, sch, hctx, hdoneSig, connCtx, wpc, wcur, wrpc, wrcur,
                  hpc, hrecv, hsentN, hres, hsawEOF, waitFor, sReadFailed, stopped, serveRet, advN>>
@@ -407,7 +413,7 @@ RlRead(c) ==
         /\ rpc' = [rpc EXCEPT ![c] = "xlock"]
      \/ /\ sctx[c] /\ UNCHANGED <<rcur, respCh, advN>>
         /\ rterm' = [rterm EXCEPT ![c] = "canceled"] /\ rpc' = [rpc EXCEPT ![c] = "xlock"]
-  /\ UNCHANGED <<c2s, s2c, nextId, idOf, muxLock, reg, respDone, rErr, mpc, mcur, cReadFailed, upc, ures,
+  /\ UNCHANGED <<c2s, s2c, nextId, idOf, muxLock, reg, respDone, rErr, mpc, mcur, cReadFailed, upc, ures, ucan,
                  spc, sop, nsent, closed, cancelled, sres, sctx, rdone, rChClosed, prot,
                  gotTrailer, srpc, srcur, srvLock, sreg, sch, hctx, hdoneSig, connCtx, wpc, wcur, wrpc, wrcur,
                  hpc, hrecv, hsentN, hres, hsawEOF, waitFor, sReadFailed, stopped, serveRet, advN>>
@@ -421,7 +427,7 @@ RlClassify(c) ==
             /\ rpc' = [rpc EXCEPT ![c] = "xlock"]
        ELSE /\ rpc' = [rpc EXCEPT ![c] = IF k = "body" THEN "handoff" ELSE "read"]
             /\ UNCHANGED <<rterm, gotTrailer, advN>>
-  /\ UNCHANGED <<c2s, s2c, nextId, idOf, muxLock, reg, respCh, respDone, rErr, mpc, mcur, cReadFailed, upc, ures,
+  /\ UNCHANGED <<c2s, s2c, nextId, idOf, muxLock, reg, respCh, respDone, rErr, mpc, mcur, cReadFailed, upc, ures, ucan,
                  spc, sop, nsent, closed, cancelled, sres, rcur, sctx, rdone, rChClosed, prot,
                  srpc, srcur, srvLock, sreg, sch, hctx, hdoneSig, connCtx, wpc, wcur, wrpc, wrcur,
                  hpc, hrecv, hsentN, hres, hsawEOF, waitFor, sReadFailed, stopped, serveRet, advN>>
@@ -436,7 +442,7 @@ RlHandoff(c) ==
      \/ /\ sctx[c]
         /\ rterm' = [rterm EXCEPT ![c] = "canceled"] /\ rpc' = [rpc EXCEPT ![c] = "xlock"]
         /\ UNCHANGED <<sres, spc, advN>>
-  /\ UNCHANGED <<c2s, s2c, nextId, idOf, muxLock, reg, respCh, respDone, rErr, mpc, mcur, cReadFailed, upc, ures,
+  /\ UNCHANGED <<c2s, s2c, nextId, idOf, muxLock, reg, respCh, respDone, rErr, mpc, mcur, cReadFailed, upc, ures, ucan,
                  sop, nsent, closed, cancelled, rcur, sctx, rdone, rChClosed, prot,
                  gotTrailer, srpc, srcur, srvLock, sreg, sch, hctx, hdoneSig, connCtx, wpc, wcur, wrpc, wrcur,
                  hpc, hrecv, hsentN, hres, hsawEOF, waitFor, sReadFailed, stopped, serveRet, advN>>
@@ -446,7 +452,7 @@ RlExitLock(c) ==
   /\ rpc[c] = "xlock" /\ prot[c] = Free
   /\ prot' = [prot EXCEPT ![c] = "rl"] /\ rChClosed' = [rChClosed EXCEPT ![c] = TRUE]
   /\ rpc' = [rpc EXCEPT ![c] = "xrst"]
-  /\ UNCHANGED <<c2s, s2c, nextId, idOf, muxLock, reg, respCh, respDone, rErr, mpc, mcur, cReadFailed, upc, ures,
+  /\ UNCHANGED <<c2s, s2c, nextId, idOf, muxLock, reg, respCh, respDone, rErr, mpc, mcur, cReadFailed, upc, ures, ucan,
                  spc, sop, nsent, closed, cancelled, sres, rcur, sctx, rdone, rterm,
                  gotTrailer, srpc, srcur, srvLock, sreg, sch, hctx, hdoneSig, connCtx, wpc, wcur, wrpc, wrcur,
                  hpc, hrecv, hsentN, hres, hsawEOF, waitFor, sReadFailed, stopped, serveRet, advN>>
@@ -458,7 +464,7 @@ RlExitRst(c) ==
   /\ (~gotTrailer[c] /\ sctx[c]) => Room(c2s)
   /\ c2s' = IF ~gotTrailer[c] /\ sctx[c] THEN Append(c2s, Env(idOf[c], "rst")) ELSE c2s
   /\ rpc' = [rpc EXCEPT ![c] = "xunreg"]
-  /\ UNCHANGED <<s2c, nextId, idOf, muxLock, reg, respCh, respDone, rErr, mpc, mcur, cReadFailed, upc, ures,
+  /\ UNCHANGED <<s2c, nextId, idOf, muxLock, reg, respCh, respDone, rErr, mpc, mcur, cReadFailed, upc, ures, ucan,
                  spc, sop, nsent, closed, cancelled, sres, rcur, sctx, rdone, rterm, rChClosed, prot,
                  gotTrailer, srpc, srcur, srvLock, sreg, sch, hctx, hdoneSig, connCtx, wpc, wcur, wrpc, wrcur,
                  hpc, hrecv, hsentN, hres, hsawEOF, waitFor, sReadFailed, stopped, serveRet, advN>>
@@ -469,7 +475,7 @@ RlExitUnreg(c) ==
   /\ respDone' = IF idOf[c] \in reg THEN respDone \cup {idOf[c]} ELSE respDone
   /\ sctx' = [sctx EXCEPT ![c] = TRUE]            \* cancel()
   /\ rpc' = [rpc EXCEPT ![c] = "xdone"]
-  /\ UNCHANGED <<c2s, s2c, nextId, idOf, muxLock, respCh, rErr, mpc, mcur, cReadFailed, upc, ures,
+  /\ UNCHANGED <<c2s, s2c, nextId, idOf, muxLock, respCh, rErr, mpc, mcur, cReadFailed, upc, ures, ucan,
                  spc, sop, nsent, closed, cancelled, sres, rcur, rdone, rterm, rChClosed, prot,
                  gotTrailer, srpc, srcur, srvLock, sreg, sch, hctx, hdoneSig, connCtx, wpc, wcur, wrpc, wrcur,
                  hpc, hrecv, hsentN, hres, hsawEOF, waitFor, sReadFailed, stopped, serveRet, advN>>
@@ -478,7 +484,7 @@ RlExitDone(c) ==
   /\ rpc[c] = "xdone"
   /\ rdone' = [rdone EXCEPT ![c] = TRUE] /\ prot' = [prot EXCEPT ![c] = Free]
   /\ rpc' = [rpc EXCEPT ![c] = "end"]
-  /\ UNCHANGED <<c2s, s2c, nextId, idOf, muxLock, reg, respCh, respDone, rErr, mpc, mcur, cReadFailed, upc, ures,
+  /\ UNCHANGED <<c2s, s2c, nextId, idOf, muxLock, reg, respCh, respDone, rErr, mpc, mcur, cReadFailed, upc, ures, ucan,
                  spc, sop, nsent, closed, cancelled, sres, rcur, sctx, rterm, rChClosed,
                  gotTrailer, srpc, srcur, srvLock, sreg, sch, hctx, hdoneSig, connCtx, wpc, wcur, wrpc, wrcur,
                  hpc, hrecv, hsentN, hres, hsawEOF, waitFor, sReadFailed, stopped, serveRet, advN>>
@@ -492,7 +498,7 @@ SrvRead ==
        THEN srpc' = "exit" /\ UNCHANGED <<c2s, srcur, advN>>
        ELSE c2s # <<>> /\ srcur' = Head(c2s) /\ c2s' = Tail(c2s)
             /\ srpc' = IF Head(c2s).k = "req" THEN "toworker" ELSE "lock"
-  /\ UNCHANGED <<s2c, nextId, idOf, muxLock, reg, respCh, respDone, rErr, mpc, mcur, cReadFailed, upc, ures,
+  /\ UNCHANGED <<s2c, nextId, idOf, muxLock, reg, respCh, respDone, rErr, mpc, mcur, cReadFailed, upc, ures, ucan,
                  spc, sop, nsent, closed, cancelled, sres, rpc, rcur, sctx, rdone, rterm, rChClosed, prot,
                  gotTrailer, srvLock, sreg, sch, hctx, hdoneSig, connCtx, wpc, wcur, wrpc, wrcur,
                  hpc, hrecv, hsentN, hres, hsawEOF, waitFor, sReadFailed, stopped, serveRet, advN>>
@@ -504,7 +510,7 @@ SrvToWorker ==
                           /\ wpc' = [wpc EXCEPT ![w] = "run"] /\ wcur' = [wcur EXCEPT ![w] = srcur]
                           /\ srpc' = "read"
      \/ connCtx /\ srpc' = "exit" /\ UNCHANGED <<wpc, wcur, advN>>
-  /\ UNCHANGED <<c2s, s2c, nextId, idOf, muxLock, reg, respCh, respDone, rErr, mpc, mcur, cReadFailed, upc, ures,
+  /\ UNCHANGED <<c2s, s2c, nextId, idOf, muxLock, reg, respCh, respDone, rErr, mpc, mcur, cReadFailed, upc, ures, ucan,
                  spc, sop, nsent, closed, cancelled, sres, rpc, rcur, sctx, rdone, rterm, rChClosed, prot,
                  gotTrailer, srcur, srvLock, sreg, sch, hctx, hdoneSig, connCtx, wrpc, wrcur,
                  hpc, hrecv, hsentN, hres, hsawEOF, waitFor, sReadFailed, stopped, serveRet, advN>>
@@ -529,7 +535,7 @@ SrvLockClassify ==
                    /\ hres' = [hres EXCEPT ![id] = ""] /\ hsawEOF' = [hsawEOF EXCEPT ![id] = FALSE]
                    /\ srpc' = "read" /\ UNCHANGED srvLock
             ELSE srpc' = "read" /\ UNCHANGED <<srvLock, hctx, sreg, hpc>> /\ same  \* close / reset for an unknown stream
-  /\ UNCHANGED <<c2s, s2c, nextId, idOf, muxLock, reg, respCh, respDone, rErr, mpc, mcur, cReadFailed, upc, ures,
+  /\ UNCHANGED <<c2s, s2c, nextId, idOf, muxLock, reg, respCh, respDone, rErr, mpc, mcur, cReadFailed, upc, ures, ucan,
                  spc, sop, nsent, closed, cancelled, sres, rpc, rcur, sctx, rdone, rterm, rChClosed, prot,
                  gotTrailer, srcur, sch, connCtx, wpc, wcur, wrpc, wrcur,
                  waitFor, sReadFailed, stopped, serveRet, advN>>
@@ -542,7 +548,7 @@ SrvForward ==
      \/ Fixed("D7s") /\ id \in hctx /\ UNCHANGED sch /\ srpc' = "read"
      \/ connCtx /\ UNCHANGED sch /\ srpc' = "exit"
   /\ srvLock' = Free
-  /\ UNCHANGED <<c2s, s2c, nextId, idOf, muxLock, reg, respCh, respDone, rErr, mpc, mcur, cReadFailed, upc, ures,
+  /\ UNCHANGED <<c2s, s2c, nextId, idOf, muxLock, reg, respCh, respDone, rErr, mpc, mcur, cReadFailed, upc, ures, ucan,
                  spc, sop, nsent, closed, cancelled, sres, rpc, rcur, sctx, rdone, rterm, rChClosed, prot,
                  gotTrailer, srcur, sreg, hctx, hdoneSig, connCtx, wpc, wcur, wrpc, wrcur,
                  hpc, hrecv, hsentN, hres, hsawEOF, waitFor, sReadFailed, stopped, serveRet, advN>>
@@ -555,7 +561,7 @@ SrvReset ==
             \/ connCtx /\ srpc' = "exit" /\ UNCHANGED <<s2c, wrpc, wrcur, advN>>
        ELSE s2c' = Append(s2c, Env(srcur.id, "rst")) /\ srpc' = "read" /\ UNCHANGED <<wrpc, wrcur, advN>>
   /\ srvLock' = Free
-  /\ UNCHANGED <<c2s, nextId, idOf, muxLock, reg, respCh, respDone, rErr, mpc, mcur, cReadFailed, upc, ures,
+  /\ UNCHANGED <<c2s, nextId, idOf, muxLock, reg, respCh, respDone, rErr, mpc, mcur, cReadFailed, upc, ures, ucan,
                  spc, sop, nsent, closed, cancelled, sres, rpc, rcur, sctx, rdone, rterm, rChClosed, prot,
                  gotTrailer, srcur, sreg, sch, hctx, hdoneSig, connCtx, wpc, wcur,
                  hpc, hrecv, hsentN, hres, hsawEOF, waitFor, sReadFailed, stopped, serveRet, advN>>
@@ -564,7 +570,7 @@ SrvReset ==
 SrvExit ==
   /\ srpc = "exit"
   /\ connCtx' = TRUE /\ srpc' = "cwlock"
-  /\ UNCHANGED <<c2s, s2c, nextId, idOf, muxLock, reg, respCh, respDone, rErr, mpc, mcur, cReadFailed, upc, ures,
+  /\ UNCHANGED <<c2s, s2c, nextId, idOf, muxLock, reg, respCh, respDone, rErr, mpc, mcur, cReadFailed, upc, ures, ucan,
                  spc, sop, nsent, closed, cancelled, sres, rpc, rcur, sctx, rdone, rterm, rChClosed, prot,
                  gotTrailer, srcur, srvLock, sreg, sch, hctx, hdoneSig, wpc, wcur, wrpc, wrcur,
                  hpc, hrecv, hsentN, hres, hsawEOF, waitFor, sReadFailed, stopped, serveRet, advN>>
@@ -574,7 +580,7 @@ SrvCancelAndWait ==
   /\ IF sreg = {}
        THEN srpc' = "end" /\ serveRet' = TRUE /\ UNCHANGED <<hctx, waitFor, advN>>
        ELSE \E id \in sreg : hctx' = hctx \cup {id} /\ waitFor' = id /\ srpc' = "cwwait" /\ UNCHANGED serveRet
-  /\ UNCHANGED <<c2s, s2c, nextId, idOf, muxLock, reg, respCh, respDone, rErr, mpc, mcur, cReadFailed, upc, ures,
+  /\ UNCHANGED <<c2s, s2c, nextId, idOf, muxLock, reg, respCh, respDone, rErr, mpc, mcur, cReadFailed, upc, ures, ucan,
                  spc, sop, nsent, closed, cancelled, sres, rpc, rcur, sctx, rdone, rterm, rChClosed, prot,
                  gotTrailer, srcur, srvLock, sreg, sch, hdoneSig, connCtx, wpc, wcur, wrpc, wrcur,
                  hpc, hrecv, hsentN, hres, hsawEOF, sReadFailed, stopped, advN>>
@@ -582,7 +588,7 @@ SrvCancelAndWait ==
 SrvWaitDone ==
   /\ srpc = "cwwait" /\ waitFor \in hdoneSig
   /\ srpc' = "cwlock"
-  /\ UNCHANGED <<c2s, s2c, nextId, idOf, muxLock, reg, respCh, respDone, rErr, mpc, mcur, cReadFailed, upc, ures,
+  /\ UNCHANGED <<c2s, s2c, nextId, idOf, muxLock, reg, respCh, respDone, rErr, mpc, mcur, cReadFailed, upc, ures, ucan,
                  spc, sop, nsent, closed, cancelled, sres, rpc, rcur, sctx, rdone, rterm, rChClosed, prot,
                  gotTrailer, srcur, srvLock, sreg, sch, hctx, hdoneSig, connCtx, wpc, wcur, wrpc, wrcur,
                  hpc, hrecv, hsentN, hres, hsawEOF, waitFor, sReadFailed, stopped, serveRet, advN>>
@@ -594,7 +600,7 @@ WkRun(w) ==
   /\ wpc[w] = "run"
   /\ \E ok \in BOOLEAN : wcur' = [wcur EXCEPT ![w] = Env(wcur[w].id, IF ok THEN "resp" ELSE "uerr")]
   /\ wpc' = [wpc EXCEPT ![w] = "handoff"]
-  /\ UNCHANGED <<c2s, s2c, nextId, idOf, muxLock, reg, respCh, respDone, rErr, mpc, mcur, cReadFailed, upc, ures,
+  /\ UNCHANGED <<c2s, s2c, nextId, idOf, muxLock, reg, respCh, respDone, rErr, mpc, mcur, cReadFailed, upc, ures, ucan,
                  spc, sop, nsent, closed, cancelled, sres, rpc, rcur, sctx, rdone, rterm, rChClosed, prot,
                  gotTrailer, srpc, srcur, srvLock, sreg, sch, hctx, hdoneSig, connCtx, wrpc, wrcur,
                  hpc, hrecv, hsentN, hres, hsawEOF, waitFor, sReadFailed, stopped, serveRet, advN>>
@@ -604,7 +610,7 @@ WkHandoff(w) ==
   /\ wpc[w] = "handoff"
   /\ \/ WriterTakes(wcur[w]) /\ wpc' = [wpc EXCEPT ![w] = "take"]
      \/ Fixed("D6") /\ connCtx /\ wpc' = [wpc EXCEPT ![w] = "end"] /\ UNCHANGED <<wrpc, wrcur, advN>>
-  /\ UNCHANGED <<c2s, s2c, nextId, idOf, muxLock, reg, respCh, respDone, rErr, mpc, mcur, cReadFailed, upc, ures,
+  /\ UNCHANGED <<c2s, s2c, nextId, idOf, muxLock, reg, respCh, respDone, rErr, mpc, mcur, cReadFailed, upc, ures, ucan,
                  spc, sop, nsent, closed, cancelled, sres, rpc, rcur, sctx, rdone, rterm, rChClosed, prot,
                  gotTrailer, srpc, srcur, srvLock, sreg, sch, hctx, hdoneSig, connCtx, wcur,
                  hpc, hrecv, hsentN, hres, hsawEOF, waitFor, sReadFailed, stopped, serveRet, advN>>
@@ -612,7 +618,7 @@ WkHandoff(w) ==
 WkExit(w) ==
   /\ wpc[w] = "take" /\ connCtx
   /\ wpc' = [wpc EXCEPT ![w] = "end"]
-  /\ UNCHANGED <<c2s, s2c, nextId, idOf, muxLock, reg, respCh, respDone, rErr, mpc, mcur, cReadFailed, upc, ures,
+  /\ UNCHANGED <<c2s, s2c, nextId, idOf, muxLock, reg, respCh, respDone, rErr, mpc, mcur, cReadFailed, upc, ures, ucan,
                  spc, sop, nsent, closed, cancelled, sres, rpc, rcur, sctx, rdone, rterm, rChClosed, prot,
                  gotTrailer, srpc, srcur, srvLock, sreg, sch, hctx, hdoneSig, connCtx, wcur, wrpc, wrcur,
                  hpc, hrecv, hsentN, hres, hsawEOF, waitFor, sReadFailed, stopped, serveRet, advN>>
@@ -622,7 +628,7 @@ WrWrite ==
   /\ wrpc = "write"
   /\ \/ Room(s2c) /\ s2c' = Append(s2c, wrcur) /\ wrpc' = "take"
      \/ ~Room(s2c) /\ connCtx /\ UNCHANGED s2c /\ wrpc' = "end"
-  /\ UNCHANGED <<c2s, nextId, idOf, muxLock, reg, respCh, respDone, rErr, mpc, mcur, cReadFailed, upc, ures,
+  /\ UNCHANGED <<c2s, nextId, idOf, muxLock, reg, respCh, respDone, rErr, mpc, mcur, cReadFailed, upc, ures, ucan,
                  spc, sop, nsent, closed, cancelled, sres, rpc, rcur, sctx, rdone, rterm, rChClosed, prot,
                  gotTrailer, srpc, srcur, srvLock, sreg, sch, hctx, hdoneSig, connCtx, wpc, wcur, wrcur,
                  hpc, hrecv, hsentN, hres, hsawEOF, waitFor, sReadFailed, stopped, serveRet, advN>>
@@ -630,7 +636,7 @@ WrWrite ==
 WrExit ==
   /\ wrpc = "take" /\ connCtx
   /\ wrpc' = "end"
-  /\ UNCHANGED <<c2s, s2c, nextId, idOf, muxLock, reg, respCh, respDone, rErr, mpc, mcur, cReadFailed, upc, ures,
+  /\ UNCHANGED <<c2s, s2c, nextId, idOf, muxLock, reg, respCh, respDone, rErr, mpc, mcur, cReadFailed, upc, ures, ucan,
                  spc, sop, nsent, closed, cancelled, sres, rpc, rcur, sctx, rdone, rterm, rChClosed, prot,
                  gotTrailer, srpc, srcur, srvLock, sreg, sch, hctx, hdoneSig, connCtx, wpc, wcur, wrcur,
                  hpc, hrecv, hsentN, hres, hsawEOF, waitFor, sReadFailed, stopped, serveRet, advN>>
@@ -648,7 +654,7 @@ HChoose(id) ==
      \/ /\ EarlyReturn \/ hsawEOF[id] \/ id \in hctx
         /\ \E ok \in BOOLEAN : hres' = [hres EXCEPT ![id] = IF ok THEN "ok" ELSE "err"]
         /\ hpc' = [hpc EXCEPT ![id] = "trailer"]
-  /\ UNCHANGED <<c2s, s2c, nextId, idOf, muxLock, reg, respCh, respDone, rErr, mpc, mcur, cReadFailed, upc, ures,
+  /\ UNCHANGED <<c2s, s2c, nextId, idOf, muxLock, reg, respCh, respDone, rErr, mpc, mcur, cReadFailed, upc, ures, ucan,
                  spc, sop, nsent, closed, cancelled, sres, rpc, rcur, sctx, rdone, rterm, rChClosed, prot,
                  gotTrailer, srpc, srcur, srvLock, sreg, sch, hctx, hdoneSig, connCtx, wpc, wcur, wrpc, wrcur,
                  hrecv, hsentN, hsawEOF, waitFor, sReadFailed, stopped, serveRet, advN>>
@@ -656,7 +662,7 @@ HChoose(id) ==
 HCtxWait(id) ==
   /\ hpc[id] = "ctxwait" /\ id \in hctx
   /\ hpc' = [hpc EXCEPT ![id] = "run"]
-  /\ UNCHANGED <<c2s, s2c, nextId, idOf, muxLock, reg, respCh, respDone, rErr, mpc, mcur, cReadFailed, upc, ures,
+  /\ UNCHANGED <<c2s, s2c, nextId, idOf, muxLock, reg, respCh, respDone, rErr, mpc, mcur, cReadFailed, upc, ures, ucan,
                  spc, sop, nsent, closed, cancelled, sres, rpc, rcur, sctx, rdone, rterm, rChClosed, prot,
                  gotTrailer, srpc, srcur, srvLock, sreg, sch, hctx, hdoneSig, connCtx, wpc, wcur, wrpc, wrcur,
                  hrecv, hsentN, hres, hsawEOF, waitFor, sReadFailed, stopped, serveRet, advN>>
@@ -670,7 +676,7 @@ HRecv(id) ==
         /\ sch' = [sch EXCEPT ![id] = Tail(@)]
      \/ /\ id \in hctx /\ hsawEOF' = [hsawEOF EXCEPT ![id] = TRUE] /\ UNCHANGED <<hrecv, sch, advN>>
   /\ hpc' = [hpc EXCEPT ![id] = "run"]
-  /\ UNCHANGED <<c2s, s2c, nextId, idOf, muxLock, reg, respCh, respDone, rErr, mpc, mcur, cReadFailed, upc, ures,
+  /\ UNCHANGED <<c2s, s2c, nextId, idOf, muxLock, reg, respCh, respDone, rErr, mpc, mcur, cReadFailed, upc, ures, ucan,
                  spc, sop, nsent, closed, cancelled, sres, rpc, rcur, sctx, rdone, rterm, rChClosed, prot,
                  gotTrailer, srpc, srcur, srvLock, sreg, hctx, hdoneSig, connCtx, wpc, wcur, wrpc, wrcur,
                  hsentN, hres, waitFor, sReadFailed, stopped, serveRet, advN>>
@@ -681,7 +687,7 @@ HSend(id) ==
   /\ \/ WriterTakes(Env(id, "body")) /\ hsentN' = [hsentN EXCEPT ![id] = @ + 1]
      \/ id \in hctx /\ hsentN' = [hsentN EXCEPT ![id] = MaxS] /\ UNCHANGED <<wrpc, wrcur, advN>>
   /\ hpc' = [hpc EXCEPT ![id] = "run"]
-  /\ UNCHANGED <<c2s, s2c, nextId, idOf, muxLock, reg, respCh, respDone, rErr, mpc, mcur, cReadFailed, upc, ures,
+  /\ UNCHANGED <<c2s, s2c, nextId, idOf, muxLock, reg, respCh, respDone, rErr, mpc, mcur, cReadFailed, upc, ures, ucan,
                  spc, sop, nsent, closed, cancelled, sres, rpc, rcur, sctx, rdone, rterm, rChClosed, prot,
                  gotTrailer, srpc, srcur, srvLock, sreg, sch, hctx, hdoneSig, connCtx, wpc, wcur,
                  hrecv, hres, hsawEOF, waitFor, sReadFailed, stopped, serveRet, advN>>
@@ -691,7 +697,7 @@ HTrailer(id) ==
   /\ \/ WriterTakes(Env(id, hres[id]))
      \/ id \in hctx /\ UNCHANGED <<wrpc, wrcur, advN>>
   /\ hpc' = [hpc EXCEPT ![id] = "cancel"]
-  /\ UNCHANGED <<c2s, s2c, nextId, idOf, muxLock, reg, respCh, respDone, rErr, mpc, mcur, cReadFailed, upc, ures,
+  /\ UNCHANGED <<c2s, s2c, nextId, idOf, muxLock, reg, respCh, respDone, rErr, mpc, mcur, cReadFailed, upc, ures, ucan,
                  spc, sop, nsent, closed, cancelled, sres, rpc, rcur, sctx, rdone, rterm, rChClosed, prot,
                  gotTrailer, srpc, srcur, srvLock, sreg, sch, hctx, hdoneSig, connCtx, wpc, wcur,
                  hrecv, hsentN, hres, hsawEOF, waitFor, sReadFailed, stopped, serveRet, advN>>
@@ -700,7 +706,7 @@ HTrailer(id) ==
 HCancel(id) ==
   /\ hpc[id] = "cancel"
   /\ hctx' = hctx \cup {id} /\ hpc' = [hpc EXCEPT ![id] = "unreg"]
-  /\ UNCHANGED <<c2s, s2c, nextId, idOf, muxLock, reg, respCh, respDone, rErr, mpc, mcur, cReadFailed, upc, ures,
+  /\ UNCHANGED <<c2s, s2c, nextId, idOf, muxLock, reg, respCh, respDone, rErr, mpc, mcur, cReadFailed, upc, ures, ucan,
                  spc, sop, nsent, closed, cancelled, sres, rpc, rcur, sctx, rdone, rterm, rChClosed, prot,
                  gotTrailer, srpc, srcur, srvLock, sreg, sch, hdoneSig, connCtx, wpc, wcur, wrpc, wrcur,
                  hrecv, hsentN, hres, hsawEOF, waitFor, sReadFailed, stopped, serveRet, advN>>
@@ -709,7 +715,7 @@ HUnregister(id) ==
   /\ hpc[id] = "unreg" /\ srvLock = Free
   /\ sreg' = sreg \ {id} /\ hdoneSig' = hdoneSig \cup {id}
   /\ hpc' = [hpc EXCEPT ![id] = "end"]
-  /\ UNCHANGED <<c2s, s2c, nextId, idOf, muxLock, reg, respCh, respDone, rErr, mpc, mcur, cReadFailed, upc, ures,
+  /\ UNCHANGED <<c2s, s2c, nextId, idOf, muxLock, reg, respCh, respDone, rErr, mpc, mcur, cReadFailed, upc, ures, ucan,
                  spc, sop, nsent, closed, cancelled, sres, rpc, rcur, sctx, rdone, rterm, rChClosed, prot,
                  gotTrailer, srpc, srcur, srvLock, sch, hctx, connCtx, wpc, wcur, wrpc, wrcur,
                  hrecv, hsentN, hres, hsawEOF, waitFor, sReadFailed, stopped, serveRet, advN>>
@@ -720,15 +726,23 @@ HUnregister(id) ==
 CallerCancel(c) ==
   /\ EnvCancel /\ spc[c] \in {"run", "opcheck", "recvsel", "sendw", "closew"} /\ ~cancelled[c] /\ ~sctx[c]
   /\ cancelled' = [cancelled EXCEPT ![c] = TRUE] /\ sctx' = [sctx EXCEPT ![c] = TRUE]
-  /\ UNCHANGED <<c2s, s2c, nextId, idOf, muxLock, reg, respCh, respDone, rErr, mpc, mcur, cReadFailed, upc, ures,
+  /\ UNCHANGED <<c2s, s2c, nextId, idOf, muxLock, reg, respCh, respDone, rErr, mpc, mcur, cReadFailed, upc, ures, ucan,
                  spc, sop, nsent, closed, sres, rpc, rcur, rdone, rterm, rChClosed, prot,
+                 gotTrailer, srpc, srcur, srvLock, sreg, sch, hctx, hdoneSig, connCtx, wpc, wcur, wrpc, wrcur,
+                 hpc, hrecv, hsentN, hres, hsawEOF, waitFor, sReadFailed, stopped, serveRet, advN>>
+
+UnaryCallerCancel(c) ==
+  /\ EnvCancel /\ upc[c] \in {"write", "await"} /\ ~ucan[c]
+  /\ ucan' = [ucan EXCEPT ![c] = TRUE]
+  /\ UNCHANGED <<c2s, s2c, nextId, idOf, muxLock, reg, respCh, respDone, rErr, mpc, mcur, cReadFailed, upc, ures,
+                 spc, sop, nsent, closed, cancelled, sres, rpc, rcur, sctx, rdone, rterm, rChClosed, prot,
                  gotTrailer, srpc, srcur, srvLock, sreg, sch, hctx, hdoneSig, connCtx, wpc, wcur, wrpc, wrcur,
                  hpc, hrecv, hsentN, hres, hsawEOF, waitFor, sReadFailed, stopped, serveRet, advN>>
 
 ClientReadFail ==
   /\ EnvReadFail /\ ~cReadFailed
   /\ cReadFailed' = TRUE
-  /\ UNCHANGED <<c2s, s2c, nextId, idOf, muxLock, reg, respCh, respDone, rErr, mpc, mcur, upc, ures,
+  /\ UNCHANGED <<c2s, s2c, nextId, idOf, muxLock, reg, respCh, respDone, rErr, mpc, mcur, upc, ures, ucan,
                  spc, sop, nsent, closed, cancelled, sres, rpc, rcur, sctx, rdone, rterm, rChClosed, prot,
                  gotTrailer, srpc, srcur, srvLock, sreg, sch, hctx, hdoneSig, connCtx, wpc, wcur, wrpc, wrcur,
                  hpc, hrecv, hsentN, hres, hsawEOF, waitFor, sReadFailed, stopped, serveRet, advN>>
@@ -736,7 +750,7 @@ ClientReadFail ==
 Stop ==
   /\ EnvStop /\ ~stopped
   /\ stopped' = TRUE /\ connCtx' = TRUE
-  /\ UNCHANGED <<c2s, s2c, nextId, idOf, muxLock, reg, respCh, respDone, rErr, mpc, mcur, cReadFailed, upc, ures,
+  /\ UNCHANGED <<c2s, s2c, nextId, idOf, muxLock, reg, respCh, respDone, rErr, mpc, mcur, cReadFailed, upc, ures, ucan,
                  spc, sop, nsent, closed, cancelled, sres, rpc, rcur, sctx, rdone, rterm, rChClosed, prot,
                  gotTrailer, srpc, srcur, srvLock, sreg, sch, hctx, hdoneSig, wpc, wcur, wrpc, wrcur,
                  hpc, hrecv, hsentN, hres, hsawEOF, waitFor, sReadFailed, serveRet, advN>>
@@ -746,14 +760,14 @@ Stop ==
 PeerClosesAfterServe ==
   /\ serveRet /\ ~cReadFailed
   /\ cReadFailed' = TRUE
-  /\ UNCHANGED <<c2s, s2c, nextId, idOf, muxLock, reg, respCh, respDone, rErr, mpc, mcur, upc, ures,
+  /\ UNCHANGED <<c2s, s2c, nextId, idOf, muxLock, reg, respCh, respDone, rErr, mpc, mcur, upc, ures, ucan,
                  spc, sop, nsent, closed, cancelled, sres, rpc, rcur, sctx, rdone, rterm, rChClosed, prot,
                  gotTrailer, srpc, srcur, srvLock, sreg, sch, hctx, hdoneSig, connCtx, wpc, wcur, wrpc, wrcur,
                  hpc, hrecv, hsentN, hres, hsawEOF, waitFor, sReadFailed, stopped, serveRet, advN>>
 ServerSeesClose ==
   /\ cReadFailed /\ ~sReadFailed
   /\ sReadFailed' = TRUE
-  /\ UNCHANGED <<c2s, s2c, nextId, idOf, muxLock, reg, respCh, respDone, rErr, mpc, mcur, cReadFailed, upc, ures,
+  /\ UNCHANGED <<c2s, s2c, nextId, idOf, muxLock, reg, respCh, respDone, rErr, mpc, mcur, cReadFailed, upc, ures, ucan,
                  spc, sop, nsent, closed, cancelled, sres, rpc, rcur, sctx, rdone, rterm, rChClosed, prot,
                  gotTrailer, srpc, srcur, srvLock, sreg, sch, hctx, hdoneSig, connCtx, wpc, wcur, wrpc, wrcur,
                  hpc, hrecv, hsentN, hres, hsawEOF, waitFor, stopped, serveRet, advN>>
@@ -763,7 +777,7 @@ AdvSendsToServer ==
   /\ advN < AdvClient
   /\ \E id \in AdvIds, k \in {"open", "body", "close", "rst", "req"} : c2s' = Append(c2s, Env(id, k))
   /\ advN' = advN + 1
-  /\ UNCHANGED <<s2c, nextId, idOf, muxLock, reg, respCh, respDone, rErr, mpc, mcur, cReadFailed, upc, ures,
+  /\ UNCHANGED <<s2c, nextId, idOf, muxLock, reg, respCh, respDone, rErr, mpc, mcur, cReadFailed, upc, ures, ucan,
                  spc, sop, nsent, closed, cancelled, sres, rpc, rcur, sctx, rdone, rterm, rChClosed, prot,
                  gotTrailer, srpc, srcur, srvLock, sreg, sch, hctx, hdoneSig, connCtx, wpc, wcur, wrpc, wrcur,
                  hpc, hrecv, hsentN, hres, hsawEOF, waitFor, sReadFailed, stopped, serveRet>>
@@ -771,7 +785,7 @@ AdvSendsToClient ==
   /\ advN < AdvServer
   /\ \E id \in AdvIds, k \in {"hdr", "body", "ok", "err", "rst", "resp", "uerr"} : s2c' = Append(s2c, Env(id, k))
   /\ advN' = advN + 1
-  /\ UNCHANGED <<c2s, nextId, idOf, muxLock, reg, respCh, respDone, rErr, mpc, mcur, cReadFailed, upc, ures,
+  /\ UNCHANGED <<c2s, nextId, idOf, muxLock, reg, respCh, respDone, rErr, mpc, mcur, cReadFailed, upc, ures, ucan,
                  spc, sop, nsent, closed, cancelled, sres, rpc, rcur, sctx, rdone, rterm, rChClosed, prot,
                  gotTrailer, srpc, srcur, srvLock, sreg, sch, hctx, hdoneSig, connCtx, wpc, wcur, wrpc, wrcur,
                  hpc, hrecv, hsentN, hres, hsawEOF, waitFor, sReadFailed, stopped, serveRet>>
@@ -780,7 +794,7 @@ AdvSendsToClient ==
 AdvCloses ==
   /\ \/ AdvClient > 0 /\ advN = AdvClient /\ ~sReadFailed /\ sReadFailed' = TRUE /\ UNCHANGED cReadFailed
      \/ AdvServer > 0 /\ advN = AdvServer /\ ~cReadFailed /\ cReadFailed' = TRUE /\ UNCHANGED sReadFailed
-  /\ UNCHANGED <<c2s, s2c, nextId, idOf, muxLock, reg, respCh, respDone, rErr, mpc, mcur, upc, ures,
+  /\ UNCHANGED <<c2s, s2c, nextId, idOf, muxLock, reg, respCh, respDone, rErr, mpc, mcur, upc, ures, ucan,
                  spc, sop, nsent, closed, cancelled, sres, rpc, rcur, sctx, rdone, rterm, rChClosed, prot,
                  gotTrailer, srpc, srcur, srvLock, sreg, sch, hctx, hdoneSig, connCtx, wpc, wcur, wrpc, wrcur,
                  hpc, hrecv, hsentN, hres, hsawEOF, waitFor, stopped, serveRet, advN>>
@@ -795,7 +809,7 @@ Finished == AllCallersDone /\ AllHandlersDone /\ wrpc \in {"take", "end"} /\ \A 
 Terminated == Finished /\ UNCHANGED vars
 
 Next ==
-  \/ \E c \in Unaries : UCheck(c) \/ URegister(c) \/ UWrite(c) \/ UAwait(c) \/ UUnregister(c)
+  \/ \E c \in Unaries : UCheck(c) \/ URegister(c) \/ UWrite(c) \/ UAwait(c) \/ UUnregister(c) \/ UnaryCallerCancel(c)
   \/ MuxRead \/ MuxLookup \/ MuxHandoff \/ MuxFail
   \/ \E c \in Streams : \/ SCheck(c) \/ SRegister(c) \/ SOpen(c) \/ SChoose(c) \/ SOpCheck(c) \/ SSendWrite(c) \/ SSendRefused(c) \/ STeardown1(c) \/ STeardown2(c)
                         \/ SCloseWrite(c) \/ SRecvCtx(c) \/ SRecvClosed(c)
